@@ -163,7 +163,7 @@ func propC08(w *World, r *Report, tier string) {
 		sa.report(r, "C08")
 	}
 	r.Expect("guard.region", 10)
-	r.Expect("safe.index", 100)
+	r.Expect("safe.index", 1) // style-dependent count: see safe.entries
 	// ---- write sites of the payload in NASEncrypt (SSA)
 	eff := NewEffects(w)
 	encFn, macFn := w.SSAFunc(enc), w.SSAFunc(mac)
